@@ -88,6 +88,126 @@ def is_lists_aug_finding(src, feats, b):
     return any(isinstance(n, ast.AugAssign) and isinstance(n.target, ast.Subscript) for n in ast.walk(ast.parse(src)))
 
 
+EV_KIND = {'T': 1, 'D': 2, 'N': 3, 'CM+': 4}
+
+
+def _events_of_text(text):
+    """the external events the statement / test with this text performs, in order"""
+    import re as _re
+    out = []
+    for m in _re.finditer(r'\b(T|D|L|CM)\((\d+)', text):
+        k, key = m.group(1), int(m.group(2))
+        if k == 'L':
+            if text.startswith('for '):
+                out.append((EV_KIND['N'], key))
+        elif k == 'CM':
+            out.append((EV_KIND['CM+'], key))
+        else:
+            out.append((EV_KIND[k], key))
+    return out
+
+
+def _dispatch_decisions(tree, raise_node, exc_name):
+    """the handler index the lowering language consumes at every enclosing try whose BODY contains the raise,
+    innermost first, up to the try that catches it"""
+    import ast
+    parents = {}
+    for n in ast.walk(tree):
+        for f, v in ast.iter_fields(n):
+            for c in (v if isinstance(v, list) else [v]):
+                if isinstance(c, ast.AST):
+                    parents[c] = (n, f)
+    out = []
+    cur = raise_node
+    while cur in parents:
+        par, field = parents[cur]
+        if isinstance(par, ast.Try) and field == 'body':
+            idx = None
+            for i, h in enumerate(par.handlers):
+                t = h.type
+                names = [] if t is None else [x.id for x in (t.elts if isinstance(t, ast.Tuple) else [t]) if isinstance(x, ast.Name)]
+                if t is None or exc_name in names or 'Exception' in names or 'BaseException' in names:
+                    idx = i
+                    break
+            if idx is not None:
+                out.append(idx)
+                return out
+            out.append(len(par.handlers))
+        if isinstance(par, (ast.FunctionDef, ast.Lambda)):
+            break
+        cur = par
+    return out
+
+
+def semantic_cases(mod, sem_inputs, rnd, nvec):
+    """runs the ORIGINAL functions natively under decision vectors -> Coq terms of type scase"""
+    import ast, sys as _sys
+    from lib import pyrt
+    out, meta = [], []
+    stats = {'runs_ending_in_exception': 0, 'runs_with_handler_dispatch': 0}
+    for idx, src, fn, atoms in sem_inputs:
+        tree = ast.parse(src)
+        raises = {n.lineno: n for n in ast.walk(tree) if isinstance(n, ast.Raise)}
+        first = fn.__code__.co_firstlineno
+        evmap = [(lab, _events_of_text(text)) for text, lab in atoms.items()]
+        evmap = [(l, e) for l, e in evmap if e]
+        for dv in VECTORS[:2] + [[rnd.choice([0, 1, 1, 2, 3]) for _ in range(rnd.randint(2, 10))] for _ in range(nvec)]:
+            w = pyrt.World(dv)
+            g = w.globals()
+            inserts = []      # (position in dlog, dispatch decisions)
+            ok = [True]
+
+            def mk(base):
+                class X(base):
+                    def __init__(self_, *a):
+                        base.__init__(self_, *a)
+                        ln = _sys._getframe(1).f_lineno - first + 1
+                        r = raises.get(ln)
+                        if r is None:
+                            ok[0] = False
+                        else:
+                            inserts.append((len(w.dlog), _dispatch_decisions(tree, r, base.__name__)))
+                X.__name__ = base.__name__
+                return X
+            for nm in ('E0', 'E1', 'E2', 'E3'):
+                g[nm] = mk(g[nm])
+            mod.__dict__.update(g)
+            mod.__dict__['G'] = 0
+            try:
+                fn(1, 2, 3)
+                oc = None
+            except RecursionError:
+                continue
+            except BaseException as e:  # noqa
+                oc = 2
+                if type(e).__name__ not in ('E0', 'E1', 'E2', 'E3'):
+                    continue      # an exception no raise statement produced (e.g. NameError): outside the language
+            if not ok[0] or len(w.dlog) > 80:
+                continue
+            if oc is None:
+                # completed: returned through a return statement or fell off the end -- told apart by the last event
+                oc = -1
+            ds = list(w.dlog)
+            for pos, dd in reversed(inserts):
+                ds[pos:pos] = dd
+            evs = [(EV_KIND[e[0]], e[1]) for e in w.log if e[0] in ('T', 'D', 'CM+', 'N')]
+            j = len(out)
+            stats['runs_ending_in_exception'] += (oc == 2)
+            stats['runs_with_handler_dispatch'] += bool(inserts)
+            out.append((j, idx, evmap, ds, evs, oc))
+            meta.append((src, dv))
+    terms = []
+    pe = lambda e: '(%d, %d)' % e
+    for j, idx, evmap, ds, evs, oc in out:
+        terms.append('(%d, %d, [%s], [%s], %d)' % (j, idx, '; '.join(map(str, ds)), '; '.join(map(pe, evs)), 9 if oc == -1 else oc))
+    evmaps = {}
+    for idx, src, fn, atoms in sem_inputs:
+        em = [(lab, _events_of_text(text)) for text, lab in atoms.items()]
+        evmaps[idx] = '[%s]' % '; '.join('(%d, [%s])' % (l, '; '.join(map(pe, e))) for l, e in em if e)
+    n = max(evmaps) + 1 if evmaps else 0
+    return terms, meta, '[%s]' % ';\n'.join(evmaps.get(i, '[]') for i in range(n)), stats
+
+
 def lowering_tie(run, rnd, quick):
     """Model passes (coq/Lower/Passes.v) vs the real break / continue passes: the real pipeline is run with
     both passes wrapped; input and output trees are exported to the lowering language and Coq checks that
@@ -141,6 +261,7 @@ def lowering_tie(run, rnd, quick):
     srcs = [progs.gen_function(rnd, rnd.choice([opts1, opts2, opts2, opts3])) for _ in range(n)]
     cases = []
     meta = []
+    sem_inputs = []
     break_statements.transform, continue_statements.transform, return_statements.transform = wrap_b, wrap_c, wrap_r
     try:
         mod = convrun.load_module(srcs, PRELUDE)
@@ -154,6 +275,7 @@ def lowering_tie(run, rnd, quick):
                 continue
             cases.append('(%d, %s, %s, %s, %s, %s)' % (len(meta), captured['b0'], captured['b1'], captured['b2'],
                                                      captured['b3'], 'true' if captured['used'] else 'false'))
+            sem_inputs.append((len(meta), src, getattr(mod, 'f%d' % i), dict(captured['ex'].atoms)))
             meta.append(src)
             if re.search(r'\b(break|continue)\b', src):
                 run.nontriv('lower:' + src)
@@ -163,9 +285,17 @@ def lowering_tie(run, rnd, quick):
     run.extra['lowering_cases'] = len(cases)
     if not cases:
         return 'no lowering case could be exported', []
+    scases, smeta, evmaps, sstats = semantic_cases(mod, sem_inputs, rnd, 2 if quick else 5)
+    for k_, v_ in sstats.items():
+        run.extra['semantics_' + k_] = int(v_)
+    run.count(len(scases))
+    run.extra['semantics_runs_against_cpython'] = len(scases)
     body = ['From Coq Require Import List Arith Bool.', 'Import ListNotations.',
             'Require Import MV.Lower.Lang MV.Lower.Passes MV.Lower.PassesCheck MV.Lower.Compose MV.Lower.Source.',
             'Definition cases : list lcase := [', ';\n'.join(cases), '].',
+            'Definition evmaps : list (list (nat * list ev)) := ', evmaps, '.',
+            'Definition scases : list scase := [', ';\n'.join(scases), '].',
+            'Eval vm_compute in (failing_scases cases evmaps scases, tt, tt, tt).',
             'Eval vm_compute in failing_lcases cases.', 'Eval vm_compute in map which_fails (filter (fun c => negb (check_lcase c)) cases).',
             'Eval vm_compute in (length (filter (fun c => match c with (_, b0, _, _, _, _) => lowering_hyps b0 end) cases), tt).',
             'Eval vm_compute in (length (filter (fun c => match c with (_, b0, _, _, _, _) => src_block b0 end) cases), tt, tt).']
@@ -177,6 +307,15 @@ def lowering_tie(run, rnd, quick):
     mh = re.search(r'=\s*\((\d+),\s*tt,\s*tt\)', out)
     if mh:
         run.extra['lowering_programs_satisfying_source_condition'] = int(mh.group(1))
+    msem = re.search(r'=\s*\((\[[^\]]*\]),\s*tt,\s*tt,\s*tt\)', out)
+    sem_bad = [int(x) for x in re.findall(r'\d+', msem.group(1))] if msem else None
+    if sem_bad is None and rc == 0:
+        return 'semantic cases: could not read the result: ' + out[-300:], []
+    if sem_bad:
+        j = sem_bad[0]
+        run.extra['semantics_mismatches'] = len(sem_bad)
+        return ('the semantics of the lowering language (coq/Lower/Lang.v) disagrees with CPython on %d runs, e.g. decisions %r of\n%s'
+                % (len(sem_bad), smeta[j][1], smeta[j][0]), [])
     if bad is None:
         return 'model evaluation failed: ' + out[-400:], []
     if bad:
